@@ -193,7 +193,7 @@ impl fmt::Display for HumanFloatCount {
 
         let (int_part, frac_part) = match num.split_once('.') {
             Some((int_str, fract_str)) => (int_str.to_string(), fract_str),
-            None => (self.0.trunc().to_string(), ""),
+            None => (num.clone(), ""),
         };
         let len = int_part.len();
         for (idx, c) in int_part.chars().enumerate() {
